@@ -13,6 +13,40 @@ class TooManyPaths(Exception):
     pass
 
 
+_SUMMARY_CACHE = {}
+_SUMMARY_BUSY = set()
+
+
+def bool_summary(fn):
+    """decision table of a small local predicate: [(constraints on 'arg:i...' keys, bool)] or None when the function is
+    not a pure function of its arguments' discriminants (used to see through extracted helpers)"""
+    key = (id(fn.prog), fn.key)
+    if key in _SUMMARY_CACHE:
+        return _SUMMARY_CACHE[key]
+    if key in _SUMMARY_BUSY or fn.locals[0] != "bool" or len(fn.blocks) > 60:
+        return None
+    _SUMMARY_BUSY.add(key)
+    rows = None
+    try:
+        res = Enumerator(fn, max_paths=400, summaries=False).run()
+        rows = []
+        for st in res:
+            v = st.vals.get(0)
+            if not (v and v[0] == "const" and isinstance(v[1], bool)):
+                rows = None
+                break
+            if any(not k.startswith("arg:") for k in st.disc) or st.decisions:
+                rows = None
+                break
+            rows.append((dict(st.disc), v[1]))
+    except TooManyPaths:
+        rows = None
+    finally:
+        _SUMMARY_BUSY.discard(key)
+    _SUMMARY_CACHE[key] = rows
+    return rows
+
+
 def access_path(fn, x, _seen=None, _depth=0):
     """Canonical access path of an operand / place / local: (root, steps) where root is
     ('arg', n) | ('call', bi) | ('local', l) | ('const', repr) | ('upvar', i) and steps is a
@@ -123,7 +157,8 @@ class Enumerator:
       (None = fork both ways).
     stop_at(state, bi) optional: prune."""
 
-    def __init__(self, fn, init_disc=None, bool_oracle=None, max_paths=60000, max_visits=1, on_call=None, prune=None):
+    def __init__(self, fn, init_disc=None, bool_oracle=None, max_paths=60000, max_visits=1, on_call=None, prune=None,
+                 summaries=True):
         self.fn = fn
         self.init_disc = init_disc or {}
         self.bool_oracle = bool_oracle
@@ -131,6 +166,7 @@ class Enumerator:
         self.max_visits = max_visits
         self.on_call = on_call
         self.prune = prune
+        self.summaries = summaries
         self.npaths = 0
 
     # ---- abstract values -------------------------------------------------
@@ -274,6 +310,10 @@ class Enumerator:
                     et = self._eq_test(st, t)
                     if et is not None:
                         st.vals[t["dst"]["l"]] = et
+                    elif self.summaries and fn.local_ty(t["dst"]["l"]) == "bool":
+                        sv = self._apply_summary(st, t)
+                        if sv is not None:
+                            st.vals[t["dst"]["l"]] = ("const", sv)
                 bi = t["t"]
                 continue
             if k == "switch":
@@ -524,6 +564,51 @@ class Enumerator:
             return None
         key = path_key(access_path(self.fn, other))
         return ("noteqtest" if m.group(2) == "ne" else "eqtest", key, enum, V)
+
+    def _apply_summary(self, st, t):
+        """result of a call to a small local predicate when the caller's constraints decide it"""
+        g = self.fn.prog.fn(self.fn.crate, callee(t))
+        if g is None or g is self.fn:
+            return None
+        rows = bool_summary(g)
+        if not rows:
+            return None
+        outs = set()
+        for cons, res in rows:
+            compatible = True
+            for k, c in cons.items():
+                m = re.match(r"arg:(\d+)(.*)$", k)
+                idx = int(m.group(1))
+                if idx - 1 >= len(t["args"]):
+                    compatible = False
+                    break
+                a = t["args"][idx - 1]
+                have = None
+                av = self.val_of(st, a)
+                if m.group(2) == "" and av and av[0] == "variant":
+                    have = av[2]
+                elif not is_const(a):
+                    have = st.disc.get(path_key(access_path(self.fn, a)) + m.group(2))
+                elif "variant" in a and m.group(2) == "":
+                    have = a["variant"]
+                if have is None:
+                    continue
+                if isinstance(have, str):
+                    if isinstance(c, str):
+                        if c != have:
+                            compatible = False
+                    elif have in c[1]:
+                        compatible = False
+                else:
+                    if isinstance(c, str) and c in have[1]:
+                        compatible = False
+                if not compatible:
+                    break
+            if compatible:
+                outs.add(res)
+        if len(outs) == 1:
+            return outs.pop()
+        return None
 
     def _set_callres(self, st, cb, val):
         for l, v in list(st.vals.items()):
